@@ -26,7 +26,7 @@ func GenSchedule(t *rapid.T, n int, maxSteps int) []SubmitStep {
 	for len(steps) < maxSteps && cursor < n {
 		ln := rapid.IntRange(1, 6).Draw(t, "batchlen")
 		var start int
-		switch k := rapid.IntRange(0, 19).Draw(t, "batchkind"); {
+		switch k := Uniform(t, 20, "batchkind"); {
 		case k < 13:
 			start = cursor
 			cursor += ln
@@ -45,11 +45,11 @@ func GenSchedule(t *rapid.T, n int, maxSteps int) []SubmitStep {
 		for i := start; i < start+ln && i < n; i++ {
 			batch = append(batch, i)
 		}
-		if rapid.IntRange(0, 9).Draw(t, "shuffle") == 0 && len(batch) > 1 {
+		if Chance(t, 10, "shuffle") && len(batch) > 1 {
 			batch[0], batch[len(batch)-1] = batch[len(batch)-1], batch[0]
 		}
 		if len(batch) > 0 {
-			steps = append(steps, SubmitStep{Batch: batch, Validated: rapid.IntRange(0, 3).Draw(t, "validated") == 0})
+			steps = append(steps, SubmitStep{Batch: batch, Validated: Chance(t, 30, "validated")})
 		}
 	}
 	// final sweep
